@@ -2192,7 +2192,7 @@ class PrefetchDataset(Dataset):
 
     def __iter__(self, with_key=False):
         if self.num_workers == 1 and self.backend == 't':
-            yield from self._single_thread_prefetch()
+            yield from self._single_thread_prefetch(with_key=with_key)
             return
 
         # Convert ReShuffleDataset to ShuffleDataset
@@ -2260,7 +2260,7 @@ class PrefetchDataset(Dataset):
                     else catch_filter_exception.__name__
                 LOG.info(f'{self.__class__.__name__} filtered {catched_count} of {total_count} examples (catched exceptions: {types}).')
 
-    def _single_thread_prefetch(self):
+    def _single_thread_prefetch(self, with_key=False):
         """
                 >>> import string
         >>> ascii = string.ascii_lowercase
@@ -2299,6 +2299,9 @@ class PrefetchDataset(Dataset):
             )
         else:
             input_dataset = self.input_dataset
+
+        if with_key:
+            input_dataset = input_dataset.items()
 
         return single_thread_prefetch(input_dataset, self.buffer_size)
 
